@@ -22,7 +22,7 @@
     correspondence (results and final cache contents of both containers against the model), not proved.
     Run time is not part of the statement: the fuel bound [2 * mu e] is exponential in the bit widths. *)
 From Coq Require Import List NArith Sorted.
-From Patronus Require Import ExprMeta ExprMetaSpec ExprMetaProofs SimplifyCacheRefs SimplifyCacheRefsProofs.
+From Patronus Require Import ExprMeta ExprMetaSpec ExprMetaProofs SimplifyCacheRefs SimplifyCacheRefsProofs SimplifyCacheRefsSim SimplifyCacheRefsTotal ExprMetaFuel.
 From Patronus Require Import Simplify SimplifyFix SimplifyCache SimplifyCacheProofs SimplifyBuilders
      SimplifyTermMeasure SimplifyTermRules3 SimplifyTerm SimplifyTermNoPanic1 SimplifyTermNoPanic SimplifyCacheComplete.
 Import ListNotations.
@@ -298,3 +298,61 @@ Theorem C13_containers_refine_map : forall (fuel : nat) (es : list expr),
   end.
 Proof. exact containers_refine_map. Qed.
 Print Assumptions C13_containers_refine_map.
+
+(** ** the container-level driver IS the tree-keyed driver (interning is injective and stable)
+
+    [cache_rel o c m a] ([SimplifyCacheRefsSim.Inv]): the interning table [c] is injective ([ctx_wf]: a tree stored
+    at [k] is found at [k]), every key and value of the container [m] is a reference of the table, and for every tree
+    [e] the association list [a] of [SimplifyCache.v] has exactly the entry the container has
+    ([lookup a e = cache_entry o c m e]).  The relation holds for the fresh instances and is preserved through
+    chase / compress / [get_fixed_point] / visit / every step of the work-stack loop / every call. *)
+Theorem C13_refs_driver_refines_tree_driver : forall (fuel : nat) (es : list expr),
+  match simplify_batch fuel [] es, simplify_batch_dense fuel es, simplify_batch_sparse fuel es with
+  | (a, rs), (cd, d, rd), (cs, s, rs') =>
+      rd = rs /\ rs' = rs /\ cache_rel dense_ops cd d a /\ cache_rel sparse_ops cs s a
+  end.
+Proof. exact refs_driver_refines_tree_driver. Qed.
+Print Assumptions C13_refs_driver_refines_tree_driver.
+
+(** one call, any lawful container, from any related states (instances with a past) *)
+Theorem C13_refs_call_refines_tree_call : forall (M : Type) (o : map_ops M), ops_lawful o ->
+  forall (fuel : nat) (c : ctx) (m : M) (a : cache) (e : expr), cache_rel o c m a ->
+  match simplify_cached fuel a e, simplify_cached_r o fuel c m e with
+  | (a', s), (c', m', s') => s = s' /\ cache_rel o c' m' a' /\ ctx_ext c c'
+  end.
+Proof. exact refs_call_refines_tree_call. Qed.
+Print Assumptions C13_refs_call_refines_tree_call.
+
+(** [C13_simplifier_total] for the driver over a cache container: for every well-typed expression without a product
+    wider than 128 bits there is ONE well-typed equivalent result [r] that an instance over ANY lawful container
+    (dense, sparse: [C13_example_container_hyps]) returns after any history of returning calls, given enough fuel;
+    simplifying [r] returns [r]; no returning call returns anything else. *)
+Theorem C13_container_driver_total :
+  forall (M : Type) (o : map_ops M) (m0 : M), ops_lawful o -> holds_nothing o m0 ->
+  forall e : expr, wt e = true -> nwm e = true ->
+  exists r, ok_rw e r /\
+    (forall c m, reachable_refs o m0 c m -> exists F, forall fuel, (F <= fuel)%nat ->
+        exists c' m', simplify_cached_r o fuel c m e = (c', m', SOk r) /\ reachable_refs o m0 c' m') /\
+    (forall c m, reachable_refs o m0 c m -> exists F, forall fuel, (F <= fuel)%nat ->
+        exists c' m', simplify_cached_r o fuel c m r = (c', m', SOk r) /\ reachable_refs o m0 c' m') /\
+    (forall c m fuel c' m' r', reachable_refs o m0 c m -> simplify_cached_r o fuel c m e = (c', m', SOk r') -> r' = r).
+Proof. exact container_driver_total. Qed.
+Print Assumptions C13_container_driver_total.
+
+Example C13_example_container_hyps :
+  (ops_lawful dense_ops /\ holds_nothing dense_ops dense_empty) /\
+  (ops_lawful sparse_ops /\ holds_nothing sparse_ops sparse_empty).
+Proof.
+  split; split; [exact dense_ops_lawful|exact dense_holds_nothing|exact sparse_ops_lawful|exact sparse_holds_nothing].
+Qed.
+
+(** the fuel of [dense_get_fixed_point] / [sparse_get_fixed_point] (stored slots + 2, what the tie runs) is enough:
+    whenever [get_fixed_point] answers within SOME fuel - i.e. the chain from the key does not run into a cycle of
+    length >= 2, where the Rust loop would not terminate - it gives that answer (pigeonhole over the stored keys) *)
+Theorem C13_get_fixed_point_fuel_suffices :
+  (forall (d : dense (option N)) f key, ExprMeta.get_fixed_point dense_ops f d key <> GfpFuel ->
+      dense_get_fixed_point d key = ExprMeta.get_fixed_point dense_ops f d key) /\
+  (forall (s : sparse (option N)) f key, ExprMeta.get_fixed_point sparse_ops f s key <> GfpFuel ->
+      sparse_get_fixed_point s key = ExprMeta.get_fixed_point sparse_ops f s key).
+Proof. exact get_fixed_point_fuel_suffices. Qed.
+Print Assumptions C13_get_fixed_point_fuel_suffices.
